@@ -4,7 +4,7 @@ the postcondition is outside pyvc's reach, DESIGN.md 5-C17)."""
 import itertools
 import random
 
-from vk.common import BoundedPart
+from vk.common import sseed,  BoundedPart
 from spec import evaln
 from . import gen_circuits as G
 
@@ -309,7 +309,7 @@ def traversal_part(tier, seed):
         for clause, msg in check_circuit(c):
             b.violation(f'bounded:C17:{clause}', f'{clause} on {sig}: {msg}', 'bounded.traversal_drv:run_traversal', {'desc': desc},
                         function='kyupy.circuit.Circuit.' + clause.split(':')[0])
-        rng = random.Random(hash(str(sig)) & 0xffff)
+        rng = random.Random(sseed(str(sig)) & 0xffff)
         origin_sets = [[n] for n in list(c.nodes)[:12]] + [rng.sample(list(c.nodes), min(len(c.nodes), 2))]
         for origins in origin_sets:
             for clause, msg in check_fanin(c, origins):
